@@ -225,14 +225,15 @@ func (g *jgen) value(depth int) *JS {
 		if g.rng.Intn(4) == 0 && p.Kind != "any" {
 			return &JS{Kind: "null", Inner: p}
 		}
+		if g.rng.Intn(8) == 0 && p.Kind != "any" {
+			// a component of a primitive type, used by reference
+			p.Ref = g.name()
+		}
 		return p
 	case r < 6:
 		it := g.value(depth - 1)
 		if it.Kind == "obj" && it.Ref == "" {
 			it.Ref = g.name()
-		}
-		if it.Kind == "null" {
-			it = it.Inner // nullable array items: C01 cell (D27/D30)
 		}
 		return &JS{Kind: "arr", Inner: it}
 	default:
